@@ -550,7 +550,13 @@ def replay(oid, kwargs, model, data):
         got = [(tuple(it.index), dict(it.parameters), it.run_index) for it in items]
         bad = got != want
         if not bad and on and "parallel_array" in oid:
-            arr = mode.create_params(dim_names=_dim_names([KEYS[k] for k in on]))
-            bad = any(tuple(arr.values[idx]) != tuple(d[KEYS[k]] for k in on) for idx, d, n in want)
+            dn = _dim_names([KEYS[k] for k in on])
+            arr = mode.create_params(dim_names=dn)
+            coords = [list(arr.coords[dn[KEYS[k]]].values) for k in on]
+            cells = [tuple(arr.values[idx]) for idx in itertools.product(*[range(lens[k]) for k in on])]
+            at_own_label = all(tuple(arr.values[idx]) == tuple(coords[j][i] for j, i in enumerate(idx)) for idx in itertools.product(*[range(lens[k]) for k in on]))
+            expected = sorted(tuple(d[KEYS[k]] for k in on) for idx, d, n in want)
+            bad = (not at_own_label) or sorted(cells) != expected
+            return bad, {"cells_sit_at_the_coordinates_carrying_their_values": at_own_label, "cells": [list(map(float, c)) for c in cells][:8], "labels": [list(map(float, c)) for c in coords]}
         return bad, {"got": got[:4], "want": want[:4]}
     return False, {}
